@@ -528,7 +528,7 @@ func c16Format(w *World, r *Report) {
 				p = stripIdentity(a)
 			}
 			if u, ok := p.(*ssa.UnOp); ok && u.Op == token.MUL {
-				if g, ok := u.X.(*ssa.Global); ok && w.flagNamesOf(g)["file"] {
+				if g, ok := u.X.(*ssa.Global); ok && w.flagNamesOfCmd(g, ownerCommandOf(w, run))["file"] {
 					okPath = true
 					fileVar = g
 				}
@@ -2083,6 +2083,96 @@ func c16Execute(w *World, r *Report) {
 			}
 		})
 	}
+	// the other rewrite: flags appended to the argument vector as it stands (`--help` for a bare invocation) - only when the user
+	// gave no arguments at all; appended to a real command line it replaces the compilation by a help text and exit status 0
+	for _, fn := range sortedFuncs(set) {
+		fn := fn
+		forEachInstr(fn, func(b *ssa.BasicBlock, ins ssa.Instruction) {
+			app, ok := ins.(*ssa.Call)
+			if !ok {
+				return
+			}
+			bi, ok := app.Call.Value.(*ssa.Builtin)
+			if !ok || bi.Name() != "append" || len(app.Call.Args) != 2 || !isArgv(app.Call.Args[0], 0) {
+				return
+			}
+			ops := variadicOperands(app.Call.Args[1])
+			if len(ops) == 0 {
+				return
+			}
+			var flags []string
+			for _, o := range ops {
+				s, isC := constString(o)
+				if !isC {
+					return
+				}
+				flags = append(flags, s)
+			}
+			key := fmt.Sprintf("%s is appended only to an empty command line", strings.Join(flags, " "))
+			guarded := false
+			for _, bb := range fn.Blocks {
+				cond := branchCond(bb)
+				if cond == nil {
+					continue
+				}
+				neg := false
+				c := cond
+				for {
+					if u, ok := c.(*ssa.UnOp); ok && u.Op == token.NOT {
+						neg = !neg
+						c = u.X
+						continue
+					}
+					break
+				}
+				bo, ok := c.(*ssa.BinOp)
+				if !ok {
+					continue
+				}
+				lc, ok := stripIdentity(bo.X).(*ssa.Call)
+				k, ok2 := bo.Y.(*ssa.Const)
+				if !ok || !ok2 || k.Value == nil || k.Value.Kind() != constant.Int {
+					continue
+				}
+				if lb, ok := lc.Call.Value.(*ssa.Builtin); !ok || lb.Name() != "len" || len(lc.Call.Args) != 1 || !isArgv(lc.Call.Args[0], 0) {
+					continue
+				}
+				kv, _ := constant.Int64Val(k.Value)
+				cmp := func(n int64) bool {
+					var res bool
+					switch bo.Op {
+					case token.EQL:
+						res = n == kv
+					case token.NEQ:
+						res = n != kv
+					case token.LSS:
+						res = n < kv
+					case token.LEQ:
+						res = n <= kv
+					case token.GTR:
+						res = n > kv
+					case token.GEQ:
+						res = n >= kv
+					default:
+						return false
+					}
+					return res != neg
+				}
+				for succ := 0; succ < 2; succ++ {
+					holds := func(n int64) bool { return cmp(n) == (succ == 0) }
+					// len(os.Args) == 1 is the bare program name
+					if holds(1) && !holds(2) && !holds(3) && !holds(7) && edgeDominates(bb, succ, b) {
+						guarded = true
+					}
+				}
+			}
+			if guarded {
+				r.pass(rule, key, w.instrPos(ins), "")
+			} else {
+				r.fail(rule, key, w.instrPos(ins), "the argument vector is extended by "+strings.Join(flags, " ")+" on a path that is not the `no arguments` edge of a test of len(os.Args): a real command line gets the flag appended - `fin-protoc -f x.dsl -g out` prints the help text and exits 0 without compiling")
+			}
+		})
+	}
 	if !found {
 		r.fail(rule, "compile inserted only when arg1 is not a subcommand", w.pos(exec.Pos()), "no rewrite of os.Args inserting \"compile\" found under Execute")
 	}
@@ -2426,7 +2516,7 @@ func c16FormatInput(w *World, r *Report, run *ssa.Function, call *ssa.Call, runB
 		switch lf.kind {
 		case "flag":
 			key := "the text handed to the formatter is the -d value, used only when it is not empty"
-			if !w.flagNamesOf(lf.g)["dsl"] {
+			if !w.flagNamesOfCmd(lf.g, ownerCommandOf(w, run))["dsl"] {
 				r.fail(rule, fmt.Sprintf("source #%d of the formatter input is a documented input", i+1), w.pos(lf.fn.Pos()), "the formatter input can be the variable "+lf.g.Name()+", which is not the -d flag's")
 				continue
 			}
@@ -2438,7 +2528,7 @@ func c16FormatInput(w *World, r *Report, run *ssa.Function, call *ssa.Call, runB
 			}
 		case "file":
 			key := "the file content handed to the formatter is that of the -f file, read only when -f is given, and a read error stops the command"
-			okFile := lf.g != nil && w.flagNamesOf(lf.g)["file"] && nonEmptyGuard(lf.fn, lf.bs, lf.g, lf.at)
+			okFile := lf.g != nil && w.flagNamesOfCmd(lf.g, ownerCommandOf(w, run))["file"] && nonEmptyGuard(lf.fn, lf.bs, lf.g, lf.at)
 			// read error: from the err != nil edge neither the formatter call nor a return of the helper is reachable
 			var errV ssa.Value
 			for _, ref := range *lf.read.Referrers() {
@@ -2746,6 +2836,19 @@ func (w *World) allKeysOf(v ssa.Value, m ssa.Value, depth int) bool {
 		return false
 	}
 	loops := mapRangeLoops(f)
+	if len(loops) == 0 {
+		// a wrapper that hands the map on to the function that collects the keys
+		n := 0
+		for _, b := range f.Blocks {
+			if ret, ok := b.Instrs[len(b.Instrs)-1].(*ssa.Return); ok {
+				n++
+				if len(ret.Results) != 1 || !w.allKeysOf(ret.Results[0], f.Params[pidx], depth+1) {
+					return false
+				}
+			}
+		}
+		return n > 0
+	}
 	if len(loops) != 1 || stripIdentity(loops[0].Range.X) != ssa.Value(f.Params[pidx]) {
 		return false
 	}
@@ -2876,4 +2979,111 @@ func (w *World) flattenConcat(v ssa.Value, bs bindings, within map[*ssa.Function
 		}
 	}
 	return []ssa.Value{v}
+}
+
+// ownerCommandOf: the package-level cobra.Command whose literal stores fn (or, climbing unique static call sites, a function that
+// leads to fn) in one of its Run fields. "" when none is found.
+func ownerCommandOf(w *World, fn *ssa.Function) string {
+	cur := fn
+	for depth := 0; depth < 4 && runFieldOf(w, cur) == ""; depth++ {
+		var site ssa.CallInstruction
+		n := 0
+		for _, g := range w.srcFuncs {
+			if g.Pkg != w.Cmd && (g.Parent() == nil || g.Parent().Pkg != w.Cmd) {
+				continue
+			}
+			forEachInstr(g, func(_ *ssa.BasicBlock, ins ssa.Instruction) {
+				if c, ok := ins.(ssa.CallInstruction); ok && c.Common().StaticCallee() == cur {
+					site = c
+					n++
+				}
+			})
+		}
+		if n != 1 {
+			break
+		}
+		cur = site.Parent()
+	}
+	owner := ""
+	for _, f := range w.srcFuncs {
+		if f.Pkg != w.Cmd || !strings.HasPrefix(f.Name(), "init") {
+			continue
+		}
+		forEachInstr(f, func(_ *ssa.BasicBlock, ins ssa.Instruction) {
+			st, ok := ins.(*ssa.Store)
+			if !ok {
+				return
+			}
+			holds := false
+			switch v := stripIdentity(st.Val).(type) {
+			case *ssa.Function:
+				holds = v == cur
+			case *ssa.MakeClosure:
+				holds = v.Fn == ssa.Value(cur)
+			}
+			if !holds {
+				return
+			}
+			if fa, ok := st.Addr.(*ssa.FieldAddr); ok {
+				root := stripIdentity(fa.X)
+				if refs := root.Referrers(); refs != nil {
+					for _, ref := range *refs {
+						if s2, ok := ref.(*ssa.Store); ok && s2.Val == root {
+							if g, ok := s2.Addr.(*ssa.Global); ok {
+								owner = g.Name()
+							}
+						}
+					}
+				}
+			}
+		})
+	}
+	return owner
+}
+
+// flagNamesOfCmd: the names under which variable g is registered as a flag of the command held in the package-level variable cmd
+// (`cmdVar.Flags().StringVarP(&g, name, ...)`); with cmd == "" the registrations on any command.
+func (w *World) flagNamesOfCmd(g *ssa.Global, cmd string) map[string]bool {
+	out := map[string]bool{}
+	for _, fn := range w.srcFuncs {
+		if fn.Pkg != w.Cmd {
+			continue
+		}
+		forEachInstr(fn, func(_ *ssa.BasicBlock, ins ssa.Instruction) {
+			c, ok := ins.(ssa.CallInstruction)
+			if !ok || c.Common().StaticCallee() == nil {
+				return
+			}
+			f := c.Common().StaticCallee()
+			if f.Pkg == nil || f.Pkg.Pkg.Path() != "github.com/spf13/pflag" || !strings.Contains(f.Name(), "Var") {
+				return
+			}
+			args := c.Common().Args
+			if len(args) < 3 {
+				return
+			}
+			gv, ok := args[1].(*ssa.Global)
+			name, ok2 := constString(args[2])
+			if !ok || !ok2 || gv != g {
+				return
+			}
+			if cmd != "" {
+				// the flag set: <cmd>.Flags() / PersistentFlags()
+				fc, ok := stripIdentity(args[0]).(*ssa.Call)
+				if !ok || len(fc.Call.Args) == 0 {
+					return
+				}
+				ld, ok := stripIdentity(fc.Call.Args[0]).(*ssa.UnOp)
+				if !ok {
+					return
+				}
+				cg, ok := ld.X.(*ssa.Global)
+				if !ok || cg.Name() != cmd {
+					return
+				}
+			}
+			out[name] = true
+		})
+	}
+	return out
 }
